@@ -20,9 +20,11 @@ def hx(b):
 
 
 class Gen:
-    def __init__(self, rng, train_seqs=None):
+    def __init__(self, rng, train_seqs=None, clean=False):
         self.r = rng
         self.train = train_seqs or []
+        # clean: only well-formed commands / bursts inside the properties' quantifiers
+        self.clean = clean
 
     # ---- configuration ---------------------------------------------------
     def config(self, max_extra=4):
@@ -56,7 +58,7 @@ class Gen:
     def int_arg(self, kind=None):
         r = self.r
         k = r.random()
-        if k < 0.08:
+        if k < 0.08 and not self.clean:
             return r.choice(BAD_INT)
         if kind == "freq" and k < 0.8:
             return str(r.choice(FREQS))
@@ -87,14 +89,14 @@ class Gen:
             s += "\0"
         elif k < 0.8:
             s += "\0\0"
-        elif k < 0.85:
+        elif k < 0.85 and not self.clean:
             s += " \0"
         return s
 
     def ctrl_bytes(self, fuzz=0.1):
         r = self.r
         k = r.random()
-        if k < 1 - fuzz:
+        if k < 1 - fuzz or self.clean:
             return self.cmd_text().encode("utf-8", "surrogatepass")
         b = bytearray(self.cmd_text().encode("utf-8", "surrogatepass"))
         m = r.random()
@@ -129,7 +131,7 @@ class Gen:
             return [0] * 8 + list(seq) + rb(36) + [0] * 3 + [0] * 60
         if k < 0.6:
             return [0] * n
-        if k < 0.65:
+        if k < 0.65 and not self.clean:
             return [r.choice([0, 1, 2, 255]) for _ in range(n)]
         return [r.randint(0, 1) for _ in range(n)]
 
@@ -138,10 +140,10 @@ class Gen:
         tn = r.randint(0, 7)
         pwr = r.choice([0, 0, 0, 1, 10, 20, 63, 64, 255])
         k = r.random()
-        n = 148 if k < 0.7 else 444 if k < 0.85 else r.choice([0, 1, 147, 149, 150, 296, 443, 445, 446, 592, 740])
-        b0 = ((ver & 0xf) << 4) | tn | (r.choice([0, 8]) if r.random() < 0.05 else 0)
+        n = 148 if k < 0.7 else 444 if (k < 0.85 or self.clean) else r.choice([0, 1, 147, 149, 150, 296, 443, 445, 446, 592, 740])
+        b0 = ((ver & 0xf) << 4) | tn | (r.choice([0, 8]) if (r.random() < 0.05 and not self.clean) else 0)
         d = bytes([b0]) + (fn & 0xffffffff).to_bytes(4, "big") + bytes([pwr]) + bytes(self.bits(n))
-        if r.random() < fuzz:
+        if r.random() < fuzz and not self.clean:
             m = r.random()
             if m < 0.4:
                 d = d[:r.randint(0, min(len(d), 12))]
@@ -201,6 +203,7 @@ class Gen:
             "wrap": (0.08, 0.42, 0.48, 0.02),
             "power": (0.55, 0.15, 0.28, 0.02),
             "fuzz": (0.45, 0.35, 0.18, 0.02),
+            "drop": (0.12, 0.45, 0.42, 0.01),
         }[profile]
         for _ in range(n_ops):
             k = r.random()
@@ -210,6 +213,15 @@ class Gen:
                     v = r.choice(["POWERON", "POWEROFF", "POWERON", "RXTUNE", "TXTUNE", "SETFH", None])
                     txt = self.cmd_text(v, dict(VERBS).get(v, 0) if v else None) if v else self.cmd_text()
                     C(i, txt)
+                elif profile == "drop":
+                    v = r.choice(["FAKE_DROP", "FAKE_DROP", "FAKE_DROP", "RFMUTE", "SETFORMAT"])
+                    if v == "FAKE_DROP":
+                        a = [str(r.choice([0, 1, 2, 3, 5, -1]))] + ([str(r.choice([1, 2, 3, 0, -1]))] if r.random() < 0.6 else [])
+                        C(i, "CMD FAKE_DROP %s\0" % " ".join(a))
+                    elif v == "RFMUTE":
+                        C(i, "CMD RFMUTE %d\0" % r.choice([0, 1, 1, 2, -1]))
+                    else:
+                        C(i, "CMD SETFORMAT %d\0" % r.choice([0, 1]))
                 elif profile == "traffic" or profile == "wrap":
                     v = r.choice(["FAKE_DROP", "FAKE_DROP", "RFMUTE", "SETTA", "FAKE_TOA", "FAKE_RSSI", "FAKE_CI",
                                   "SETPOWER", "SETFORMAT", "POWEROFF", "POWERON", None])
@@ -223,7 +235,9 @@ class Gen:
             elif k < weights[0] + weights[1]:
                 base = clk if clk is not None else 0
                 d = r.choice([0, 0, 1, 1, 2, 2, 3, 5, -1, -2, 10, 1000, H // 2 - 1, H // 2, H // 2 + 1, -H // 2])
-                fn = (base + d) % H if r.random() < 0.97 else r.choice([H, H + 1, 2 ** 32 - 1])
+                if profile == "drop":
+                    d = r.choice([0, 1, 1, 1, 2, 2, 3])
+                fn = (base + d) % H if (r.random() < 0.97 or self.clean) else r.choice([H, H + 1, 2 ** 32 - 1])
                 v = ver[i] if r.random() < 0.9 else 1 - ver[i]
                 ops.append("D %d %s" % (i, hx(self.tx_dgram(fn, v, 0.3 if profile == "fuzz" else 0.06))))
             elif k < weights[0] + weights[1] + weights[2]:
